@@ -493,6 +493,15 @@ pub fn gen_inputs(cfg: &RunCfg) -> Vec<(String, String)> {
             out.push(("multibyte".into(), s));
         }
     }
+    // (3a) the same inside and around block comments (nested, with lone `*` and `/`): the scanner for `*/` walks bytes
+    let tiny2 = "M DEFINITIONS ::= BEGIN\n/* l in m /* n */ * / e */ A ::= INTEGER /* t */\nEND\n";
+    for (i, _) in tiny2.char_indices() {
+        for ch in ["ü", "語", "\u{1F600}"] {
+            let mut s = tiny2.to_string();
+            s.insert_str(i, ch);
+            out.push(("multibyte-in-block-comment".into(), s));
+        }
+    }
     // (3b) a syntax error *after* multi-byte characters (in strings, comments, at line ends): offsets, lines and
     // the excerpt of the report are computed behind them
     for mb in ["5€", "ëë", "語", "€5", "Zoë", "\u{1F600}x", "ü", "aé語€\u{1F600}"] {
